@@ -54,6 +54,9 @@ type world struct {
 	nodes map[string]*node
 	save  int
 	gap   int
+	// residue is added to every substituted clock reading: the wall clock is never a whole number of milliseconds,
+	// while the timestamps an administrator or a global request writes always are
+	residue time.Duration
 }
 
 func (w *world) now(c *clientv3.Client, real time.Time) time.Time {
@@ -63,7 +66,7 @@ func (w *world) now(c *clientv3.Client, real time.Time) time.Time {
 	if !ok {
 		return real
 	}
-	return w.base.Add(time.Duration(v) * time.Millisecond)
+	return w.base.Add(time.Duration(v)*time.Millisecond + w.residue)
 }
 
 func (w *world) setClock(n *node, v int) {
